@@ -6,7 +6,10 @@ Domain : generated main-thread programs (Mark / UOD commands / Wait / Base / nes
          s/min/h; tick interval fixed 0.1 s, tick times epoch-sized or starting at 0; user Pause/Unpause/Hold/Unhold
          between ticks; a generated monotone totaliser (Accumulated Volume / Block Volume for Base L, mL).
          Watches (bodies of Mark/Quick/Wait without thresholds, blocks, Base, End block) run beside the main thread; they do
-         not change the lexical scope of any main-thread line.  Thresholds are generated on main-thread lines only.
+         not change the lexical scope of any main-thread line.
+         Instructions that execute more than once: one macro (body: Mark/Quick/Wait, thresholds allowed) called any number of
+         times from main-thread lines, also inside Blocks and with Base changes between the calls; Alarms (body: Mark/Quick/
+         Wait without thresholds) that fire repeatedly.  Thresholds are generated on main-thread lines and in macro bodies.
 "start": first tick at which engine.method_manager.get_method_state() lists the line as started / executed / failed.
 Oracle :
   shadow clocks   per scope (Block: from the tick of the listener's block_start event; otherwise the Program scope from its
@@ -23,7 +26,14 @@ Oracle :
                   of a Watch activated meanwhile - not the program scope - has run T)
                   (late:float-boundary when only the *exact* shadow has reached T while a clock that adds the float 0.1
                   per tick - the arithmetic of any float clock - has not: the root cause is rounding, not the comparison)
-  Wait            successor starts >= d s after the Wait was reported started (engine time)     -> wait-early
+  macro body      per execution of a thresholded macro line: never early against the clock of the calling line's scope
+                  (Block Time/Volume of the Block around the Call macro, program Scope Time / Accumulated Volume
+                  otherwise) in the Base unit in force at that execution        -> early:<unit>:macro-body (1st execution)
+                                                                                   early:<unit>:repeated-execution (later)
+                  (never-late is not judged there: which clock a macro body has is open, and every candidate is younger)
+  Wait            per execution of the Wait (main thread once; macro bodies per call; Alarm bodies per firing):
+                  successor starts >= d s after the Wait was reported started (engine time)     -> wait-early
+                  (wait-early:repeated-execution / wait-late:repeated-execution for the 2nd.. execution of a Wait line)
                   and, when no pause/hold intervened and the successor is the next line and has no threshold,
                   <= d + one tick after the tick the Wait began executing                       -> wait-late
 """
@@ -41,7 +51,9 @@ TECHNIQUE = ("Hypothesis-generated programs x pause/hold schedules x totaliser t
              "(never early) and one metamorphic twin run per thresholded line with that threshold zeroed (never late)")
 RULE = ("Hypothesis draws a program (<=2 block levels quick / 3 thorough, Watches beside the main thread) with thresholds in the "
         "Base unit in force (s/min/h/L/mL) on main-thread lines, Wait lines, 0-4 user Pause/Hold windows, a piecewise-constant "
-        "totaliser flow and the tick at which Watch conditions become true. Non-trivial = at least "
+        "totaliser flow and the tick at which Watch/Alarm conditions become true; 40% of the programs define a macro with Waits and "
+        "thresholded lines and call it repeatedly (half of them: call, Base change, call again, the second call in a fresh "
+        "Block half the time); Alarms re-fire. Non-trivial = at least "
         "one threshold was binding (the line started >=1 tick later than in its twin with the threshold zeroed) or one Wait of "
         ">= 1 tick was followed by a started successor. Distinct = distinct (program, schedule, totaliser, tick-time size).")
 ASSUMPTIONS = [
@@ -55,6 +67,9 @@ ASSUMPTIONS = [
     "later); the narrower readings are counted as classes wait:late-vs-reported-start / wait:early-vs-execution-start",
     "the Wait upper bound is asserted only when no tick of the window began Paused/Holding (Wait counts engine time)",
     "Base: CV is not covered (the harness unit registers no column volume)",
+    "a new execution of a line (macro call, Alarm firing) is seen in get_method_state(): the line was not reported after the "
+    "previous tick, or was reported executed and is now reported started again",
+    "macro body lines are judged never-early only, against the clock of the scope of the calling main-thread line",
 ]
 TIERS = {
     "quick": {"examples": 4800, "budget_s": 150, "chunk": 300, "depth": 2, "top": 6, "children": 4, "max_ticks": 260},
@@ -64,6 +79,9 @@ TIERS = {
 # scope of any main-thread line, so the oracle is unchanged; on the current tree they expose that the interpreter reads the
 # Scope Time of the most recently activated scope.  Switch off to explore without that class.
 WATCHES = True
+# Instructions that execute more than once in a run: macro bodies (Waits and thresholded lines) called repeatedly from the
+# main thread, also inside Blocks and with Base changes between calls, and Alarm bodies (Waits).  Judged per execution.
+REPEATED = True
 EPS_T = 1e-6      # tick arithmetic on engine times (epoch-sized doubles drift ~1e-7 per tick)
 
 _FSUM = [0.0]
@@ -77,13 +95,14 @@ def _fsum(k: int) -> Fraction:
 
 
 def _opts(cfg):
-    return {"depth": cfg["depth"], "top": cfg["top"], "children": cfg["children"], "max_ticks": cfg["max_ticks"], "watch": WATCHES}
+    return {"depth": cfg["depth"], "top": cfg["top"], "children": cfg["children"], "max_ticks": cfg["max_ticks"], "watch": WATCHES,
+            "alarm": REPEATED, "macro": REPEATED}
 
 
 def analyse(case):
     """-> (violations, info)"""
     out: list[Violation] = []
-    info = {"classes": set(), "binding": 0, "waits": 0, "twins": 0}
+    info = {"classes": set(), "binding": 0, "waits": 0, "twins": 0, "macro_thr": 0}
     cls = info["classes"]
 
     def viol(sig, msg):
@@ -122,12 +141,21 @@ def analyse(case):
         elif e[1] == "scope_activate" and e[2] == "Program" and prog_start is None:
             prog_start = e[0]
 
-    watch_iv: dict = {}
+    class _IV:
+        """activation intervals [tick, end tick or None] of the Watch and Alarm scopes (an Alarm has one per firing)"""
+        def __init__(self):
+            self.iv: list = []
+            self.open: dict = {}
+
+        def values(self):
+            return self.iv
+    watch_iv = _IV()
     for e in r.events:
-        if e[1] == "scope_activate" and e[2] == "Watch":
-            watch_iv[e[3]] = [e[0], None]
-        elif e[1] == "scope_end" and e[2] == "Watch" and e[3] in watch_iv:
-            watch_iv[e[3]][1] = e[0]
+        if e[1] == "scope_activate" and e[2] in ("Watch", "Alarm"):
+            watch_iv.open[e[3]] = [e[0], None]
+            watch_iv.iv.append(watch_iv.open[e[3]])
+        elif e[1] == "scope_end" and e[2] in ("Watch", "Alarm") and e[3] in watch_iv.open:
+            watch_iv.open.pop(e[3])[1] = e[0]
 
     def interrupt_scope_visible(n_from, n_to):
         """some Watch scope is the most recently activated scope when the main thread runs in a tick of [n_from, n_to]:
@@ -256,8 +284,8 @@ def analyse(case):
                 cls.add("threshold-awaited-while-interrupt-scope-active")
                 viol("late:interrupt-scope-shadows-program-scope",
                      "%r (Base %s, program scope) could start at tick %d (twin with threshold 0) and the program scope (began tick %d) "
-                     "had run %s s >= %s at tick %d, but the line %s - the tick at which the scope of a Watch activated meanwhile "
-                     "(Watch scopes active: %s) had run that long%s"
+                     "had run %s s >= %s at tick %d, but the line %s - the tick at which the scope of a Watch/Alarm activated meanwhile "
+                     "(Watch/Alarm scopes active: %s) had run that long%s"
                      % (l.text.strip(), unit, n0, b, float(count(lo_pre, b, n_should) * H.INTERVAL), float(thr), n_should,
                         "started at tick %d" % n_s if n_s is not None else "had not started by tick %d" % horizon,
                         sorted(watch_iv.values(), key=lambda x: x[0]), _ctx(case, lines)))
@@ -277,12 +305,64 @@ def analyse(case):
                     repr(_FSUM[count(lo_pre, b, n_exact)]), float(thr), _ctx(case, lines)))
             cls.add("float-boundary-threshold")
 
-    # ---- Wait -------------------------------------------------------------------------------------------------
+    # ---- thresholds in a macro body, per execution (never early only) ---------------------------------------------
+    # A macro body line runs once per `Call macro`.  The clock taken is the one of the *calling* main-thread line: Block
+    # Time / Block Volume of the innermost Block around the call, Scope Time / Accumulated Volume of the program for a call
+    # outside any block - that is what "block time inside a block, scope time otherwise" says for an instruction executing
+    # there, and every other candidate (a clock that began with the call) is younger, so never-early against it is implied
+    # by never-early against any reading.  Never-late would depend on the reading and is not judged.  The Base unit is the
+    # one in force when the execution starts (the last Base line executed before it; Base lines are main-thread only).
+    calls = [m for m in lines if m.kind == "callmacro" and m.thread == "main"]
+    base_lines = [m for m in lines if m.kind == "base" and m.thread == "main" and m.id in r.first_start]
+    for l in lines:
+        if l.ts is None or l.thread == "main" or by_id[l.thread].kind != "macro":
+            continue
+        units_seen = []
+        for k, n_s in enumerate(r.starts.get(l.id, [])):
+            mname = by_id[l.thread].node.get("name")
+            act = [(max(t for t in r.starts[c.id] if t <= n_s), c) for c in calls
+                   if c.node.get("name") == mname and any(t <= n_s for t in r.starts.get(c.id, []))]
+            if not act:
+                cls.add("not-judged:macro-line-without-main-thread-call")
+                continue
+            call = max(act, key=lambda x: x[0])[1]
+            unit = H.DEFAULT_BASE
+            bl = [(r.first_start[m.id], m) for m in base_lines if r.first_start[m.id] < n_s]
+            if bl:
+                unit = max(bl, key=lambda x: x[0])[1].node["u"]
+            scope, nest = scope_of(call)
+            b = block_start.get(scope) if scope is not None else prog_start
+            if b is None or b > n_s:
+                cls.add("not-judged:line-started-before-its-scope-began")
+                continue
+            is_time = unit in H.TIME_FACTOR
+            thr = H.frac(l.ts) * (H.TIME_FACTOR[unit] if is_time else H.VOL_FACTOR[unit])
+            if is_time:
+                reached = count(hi_pre, b, n_s) * H.INTERVAL
+            else:
+                reached = Fraction(r.tot_at[n_s]) - Fraction(r.tot_at[b if scope is not None else 0])
+            info["macro_thr"] += 1
+            cls.add("macro-threshold:executed")
+            if thr > 0 and reached - thr < (H.INTERVAL * 2 if is_time else Fraction(1, 2)):
+                cls.add("macro-threshold:released-within-two-ticks-of-T")      # evidence that the threshold was binding
+            if k >= 1:
+                cls.add("macro-threshold:executed-again")
+                if any(u != unit for u in units_seen):
+                    cls.add("macro-threshold:executed-again-under-another-Base")
+            units_seen.append(unit)
+            if reached < thr:
+                viol("early:%s%s" % (unit, ":repeated-execution" if k >= 1 else ":macro-body"),
+                     "execution %d of macro line %r (called by %r, Base %s in force, %s) started at tick %d when that clock had at "
+                     "most %s %s of %s (scope began at tick %d)%s"
+                     % (k + 1, l.text.strip(), call.text.strip(), unit, "block level %d" % nest if nest else "program scope", n_s,
+                        float(reached), "s" if is_time else "L", float(thr), b, _ctx(case, lines)))
+
+    # ---- Wait, per execution --------------------------------------------------------------------------------------
     for l in lines:
         if l.kind != "wait" or not l.node.get("w"):
             continue
-        t_s = r.first_start.get(l.id)
-        if t_s is None:
+        w_starts = r.starts.get(l.id, [])
+        if not w_starts:
             continue
         succ, gap = None, 0
         for m in lines[l.index + 1:]:
@@ -300,53 +380,61 @@ def analyse(case):
             continue
         d = H.wait_seconds(l.node["w"])
         df = float(d)
-        n_s = r.first_start.get(succ.id)
         ten = d * 10
         kind = "zero" if d == 0 else "sub-tick" if d < H.INTERVAL else "tick-multiple" if ten.denominator == 1 else "between-ticks"
-        if n_s is not None:
-            info["waits"] += 1 if d >= H.INTERVAL else 0
-            cls.add("wait:%s" % kind)
-            cls.add("wait-unit:%s" % l.node["w"][1])
-            el = T[n_s] - T[t_s]
-            if el < df - EPS_T:
-                viol("wait-early", "%r was reported started at tick %d (t=%.6f); its successor %r started at tick %d, %.6f s later "
-                     "(< %s s)%s" % (l.text.strip(), t_s, T[t_s] - T[0], succ.text.strip(), n_s, el, df, _ctx(case, lines)))
-            # narrower readings: counted, not judged
-            if el > df + 0.1 + EPS_T:
-                cls.add("wait:late-vs-reported-start:%s" % kind)
-            if t_s + 1 < n_ticks and T[n_s] < T[t_s + 1] + df - EPS_T:
-                cls.add("wait:early-vs-execution-start:%s" % kind)
-        # upper bound
-        if t_s + 1 >= n_ticks:
-            continue
-        bound = T[t_s + 1] + df + 0.1 + EPS_T
-        n_b = t_s + 1
-        while n_b + 1 < n_ticks and T[n_b + 1] <= bound:
-            n_b += 1
-        if n_b + 1 >= n_ticks:
-            continue          # the window is not closed inside the observed run
-        if not all(interp[j] for j in range(t_s + 1, n_b + 2)):
-            cls.add("wait:pause-or-hold-in-window")
-            continue
-        if gap or succ.ts is not None:
-            cls.add("wait:upper-not-judged(successor-thresholded-or-after-blank)")
-            continue
-        if l.thread != "main":
-            # a Watch inside a Block is aborted when that block ends: its remaining lines never run (not C03's subject)
-            p_, aborted = by_id[l.thread].parent, False
-            while p_ is not None:
-                if by_id[p_].kind == "block" and block_end.get(p_, n_ticks + 9) <= n_b + 1:
-                    aborted = True
-                p_ = by_id[p_].parent
-            if aborted:
-                cls.add("wait:upper-not-judged(watch-aborted-by-block-end)")
+        if len(w_starts) > 1:
+            cls.add("wait:executed-again(%s)" % by_id[l.thread].kind)
+        for k, t_s in enumerate(w_starts):
+            rep_ = ":repeated-execution" if k >= 1 else ""
+            t_next = w_starts[k + 1] if k + 1 < len(w_starts) else n_ticks + 9
+            cand = [t for t in r.starts.get(succ.id, []) if t_s <= t < t_next]
+            n_s = cand[0] if cand else None
+            if n_s is not None:
+                info["waits"] += 1 if d >= H.INTERVAL else 0
+                cls.add("wait:%s" % kind)
+                cls.add("wait-unit:%s" % l.node["w"][1])
+                el = T[n_s] - T[t_s]
+                if el < df - EPS_T:
+                    viol("wait-early" + rep_, "%sexecution %d of %r was reported started at tick %d (t=%.6f); its successor %r started "
+                         "at tick %d, %.6f s later (< %s s)%s"
+                         % ("" if not k else "(starts of the Wait: ticks %s) " % w_starts[:6], k + 1, l.text.strip(), t_s, T[t_s] - T[0],
+                            succ.text.strip(), n_s, el, df, _ctx(case, lines)))
+                # narrower readings: counted, not judged
+                if el > df + 0.1 + EPS_T:
+                    cls.add("wait:late-vs-reported-start:%s" % kind)
+                if t_s + 1 < n_ticks and T[n_s] < T[t_s + 1] + df - EPS_T:
+                    cls.add("wait:early-vs-execution-start:%s" % kind)
+            # upper bound
+            if t_s + 1 >= n_ticks:
                 continue
-        if n_s is None or n_s > n_b:
-            viol("wait-late", "%r was reported started at tick %d and began executing at tick %d (t=%.6f); its successor %r %s, "
-                 "later than %s s + one tick after that%s"
-                 % (l.text.strip(), t_s, t_s + 1, T[t_s + 1] - T[0], succ.text.strip(),
-                    "started at tick %d (%.6f s after)" % (n_s, T[n_s] - T[t_s + 1]) if n_s is not None else "had not started by tick %d" % (n_ticks - 1),
-                    df, _ctx(case, lines)))
+            bound = T[t_s + 1] + df + 0.1 + EPS_T
+            n_b = t_s + 1
+            while n_b + 1 < n_ticks and T[n_b + 1] <= bound:
+                n_b += 1
+            if n_b + 1 >= n_ticks:
+                continue          # the window is not closed inside the observed run
+            if not all(interp[j] for j in range(t_s + 1, n_b + 2)):
+                cls.add("wait:pause-or-hold-in-window")
+                continue
+            if gap or succ.ts is not None:
+                cls.add("wait:upper-not-judged(successor-thresholded-or-after-blank)")
+                continue
+            if l.thread != "main":
+                # a Watch/Alarm inside a Block is aborted when that block ends: its remaining lines never run (not C03's subject)
+                p_, aborted = by_id[l.thread].parent, False
+                while p_ is not None:
+                    if by_id[p_].kind == "block" and block_end.get(p_, n_ticks + 9) <= n_b + 1:
+                        aborted = True
+                    p_ = by_id[p_].parent
+                if aborted:
+                    cls.add("wait:upper-not-judged(watch-aborted-by-block-end)")
+                    continue
+            if n_s is None or n_s > n_b:
+                viol("wait-late" + rep_, "execution %d of %r was reported started at tick %d and began executing at tick %d (t=%.6f); "
+                     "its successor %r %s, later than %s s + one tick after that%s"
+                     % (k + 1, l.text.strip(), t_s, t_s + 1, T[t_s + 1] - T[0], succ.text.strip(),
+                        "started at tick %d (%.6f s after)" % (n_s, T[n_s] - T[t_s + 1]) if n_s is not None
+                        else "had not started by tick %d" % (n_ticks - 1), df, _ctx(case, lines)))
     cls.add("t0:%s" % case["t0"])
     return out, info
 
